@@ -16,10 +16,10 @@ package main
 import (
 	"bytes"
 	"context"
-	"encoding/binary"
 	"crypto/rand"
 	"crypto/rsa"
 	"crypto/x509"
+	"encoding/binary"
 	"encoding/pem"
 	"errors"
 	"fmt"
@@ -690,13 +690,15 @@ func loginGen(tier string, rng *mrand.Rand, emit func(Case)) {
 
 func init() {
 	register(&Prop{
-		ID:         "C08",
-		Gen:        loginGen,
-		Impl:       loginImpl,
-		Oracle:     txOracle,
+		ID:     "C08",
+		Gen:    loginGen,
+		Impl:   loginImpl,
+		Oracle: txOracle,
 		// a reply whose length field announces more than ever arrives: outside the login model (it works on
 		// delivered packages); judged by the oracle (no success, no crash, an answer when the context expires)
-		NoModel:    func(line string) bool { return strings.Contains(line, ",kx,") || strings.Contains(line, ",ky,") || strings.Contains(line, ",kq,") },
+		NoModel: func(line string) bool {
+			return strings.Contains(line, ",kx,") || strings.Contains(line, ",ky,") || strings.Contains(line, ",kq,")
+		},
 		Agree:      func(m, i string) bool { return m == txStrip(i) },
 		FindingKey: func(line, out, clause string) string { return clause },
 		Nontrivial: func(line, out string) bool { return !strings.HasPrefix(out, "error 0") },
